@@ -604,7 +604,7 @@ def cell_text_py(t, el):
 def gen_raw_cases(ctx, round):
     r = ctx.rng
     cs = []
-    n = ctx.n(78, 1200) if round == 0 else ctx.n(60, 300)
+    n = ctx.n(78, 600) if round == 0 else ctx.n(60, 300)
     mals = ["none", "empty-float", "empty-int", "truncate", "blank-before-number", "blank-before-delim", "plus-sign",
             "leading-zeros", "garbage", "no-final-newline", "extra-newlines", "drop-last-field", "empty-first-field"]
     for i in range(n):
@@ -1049,13 +1049,13 @@ def gen_cases(ctx, round, entry):
                 c["form"] = r.choice(forms)
             cs.append(c)
         # -- long tables: row counts 2^k +- 1 beyond stdio and block sizes
-        for nrows in ((16385,) if q else (1025, 4095, 16385, 32769)):
+        for nrows in ((16385,) if q else (1025, 4095, 16385)):
             f = [{"name": "i", "t": r.choice(["i2", "u2", "i1"]), "o": r.choice("<>"), "shape": []},
                  {"name": "s", "t": "S1", "o": "|", "shape": []}]
             if nrows < 2000:
                 f.append({"name": "x", "t": "f4", "o": r.choice("<>"), "shape": []})
             c = mk_case(r, f, nrows, r.choice(DELIMS), "long-rows", True)
-            if nrows in (16385, 32769):
+            if nrows in (4095, 16385):
                 c["view"] = [1, 2]
             cs.append(c)
         # -- control characters in strings (line boundaries of str.splitlines that are NOT line ends of a file: \x0b \x0c \x1c \x1d \x1e)
@@ -1074,7 +1074,7 @@ def gen_cases(ctx, round, entry):
             f = [{"name": "i", "t": "i8", "o": ">", "shape": []}, {"name": "s", "t": "S2", "o": "|", "shape": []},
                  {"name": "x", "t": "f4", "o": "<", "shape": [2]}]
             cs.append(mk_case(r, f, nrows, r.choice(DELIMS), "many-rows", True))
-    n = ctx.n(120, 3000) if round == 0 else ctx.n(150, 1500)
+    n = ctx.n(120, 2200) if round == 0 else ctx.n(150, 1500)
     for _ in range(n):
         nf = r.choice([1, 2, 2, 3, 3, 4, 5, 6])
         fields = [rnd_field(r, i) for i in range(nf)]
